@@ -40,6 +40,11 @@ CLAIMED = {
          "(bit-identity), continuation by the first/last line piece resp. border cell (C06_linear_left/right/inside, C06_bilinear_cell); "
          "spline statements in Props/C02. Exact checks at Q incl. end cubic recovered from 4 exact samples; on/off bitwise at f64.",
          "§5 C06", "no rounding bound outside the range for f64", "Lean 4 proof + exact-rational correspondence and exact end-polynomial oracle"),
+ "C07": ("Kernel-checked (any slopes, single lane): C07_mode (periodic evaluation selected iff Periodic boundary and extrapolation), "
+         "C07_wrap (outside the range the value is the in-range value at q - kP, k integer, wrapped point in [x0, x_{n-1})), C07_periodic "
+         "(S(q + kP) = S(q) for every integer k, using the equal-ends check), C07_ends; rem_euclid law proved for the Rat instance. "
+         "Exact runs at Q with k up to +-10^6 and points next to the range ends; f64 with tolerance.", "§5 C07",
+         "f64: rounding of the wrapped argument tested with a tolerance only", "Lean 4 proof (floor/representative uniqueness) + exact periodicity runs"),
  "C11": ("Theorems for every axis/length/guess/query (C11_bracket for ANY in-range initial guess, C11_guess, C11_exact, C11_unique) over "
          "any linear order resp. ordered field; exact-rational correspondence of get_lower_index, f64 index comparison, linear-scan "
          "oracle, exhaustive (length, guess, rank) family.", "§5 C11",
@@ -48,6 +53,13 @@ CLAIMED = {
  "C12": ("Theorems for every list: C12_classify/C12_iff (any linear order), C12_nan (no assumption on the comparisons), "
          "C12_shortcircuit; exhaustive relation words and NaN placements through crate and model.", "§5 C12",
          "IEEE non-NaN order trusted", "Lean 4 proof (automaton invariant by induction) + exhaustive word correspondence"),
+ "C15": ("Kernel-checked: Linear — scale data, superposition, any strictly increasing axis relabelling commuting with calc_frac, instantiated "
+         "to scaling by c>0 and shifting; Bilinear — scale data; spline — homogeneity of the tridiagonal solve in its right-hand sides; "
+         "bit-for-bit half C15_hom_linear_data for ARBITRARY scalar operations. Metamorphic pairs on the real code: exact at Q for every "
+         "strategy and boundary configuration (data x c, axis x c with converted boundary values, shifts, superposition), bit-for-bit at "
+         "f64 for powers of two, negation and dyadic shifts.", "§5 C15",
+         "end-to-end spline unit/linearity statements are checked exactly by the metamorphic runs, not yet all stated as theorems (see PARTIAL in evidence)",
+         "Lean 4 proof (Linear/Bilinear, solver homogeneity) + exact metamorphic runs"),
  "C16": ("Kernel-checked: C16_linear, C16_bilinear (every query, in range or extrapolated), C16_spline (a cubic meeting the selected end "
          "conditions is reproduced: solver returns p'(x_i) by uniqueness, Hermite form of a cubic is the cubic), C16_notAKnot (n>=4), "
          "C16_natural_line. Exact reproduction checked at Q for random dyadic polynomials, all spacings, extrapolated queries, lanes with "
